@@ -79,9 +79,12 @@ Next == /\ l <= Len(RecA) /\ l <= Len(RecB)
              /\ UNCHANGED <<ta, tb, off>>
            ELSE LET a == RecA[l]  b == RecB[l] IN
              IF a.e = "reset" THEN ta' = <<>> /\ tb' = <<>> /\ off' = {}
-             ELSE IF a.e = "ret" /\ b.e = "ret" THEN
-               LET ta2 == Upd(ta, a.caches)  tb2 == Upd(tb, b.caches) IN
-               /\ Emit(MixedFindings(a, b, ta2, tb2))
+             ELSE IF a.e = b.e /\ "caches" \in DOMAIN a /\ "caches" \in DOMAIN b THEN
+               \* (flatret: the flattened common view of a call; it carries the caches like ret, and no items)
+               LET ta2 == Upd(ta, a.caches)  tb2 == Upd(tb, b.caches)
+                   a2 == IF a.e = "ret" THEN a ELSE [p |-> a.p, out |-> <<>>]
+                   b2 == IF b.e = "ret" THEN b ELSE [p |-> b.p, out |-> <<>>] IN
+               /\ Emit(MixedFindings(a2, b2, ta2, tb2))
                /\ ta' = ta2 /\ tb' = tb2
                /\ off' = off \cup {q \in DOMAIN ta2 \cup DOMAIN tb2 :
                                      (IF q \in DOMAIN ta2 THEN ta2[q] ELSE <<>>) # (IF q \in DOMAIN tb2 THEN tb2[q] ELSE <<>>)}
